@@ -135,20 +135,24 @@ func (c *conn) closeNotify() <-chan struct{} {
 				pw.CloseWithError(c.pipeCopy(pw, readSource))
 				c.notifyClientGone()
 			}
-			if c.sr.inHandler {
-				// A handler is running, on the goroutine that reads: no Read
-				// is in progress and the copy routine can take over at once.
-				// It has to: a handler that waits for the channel it asked
-				// for would otherwise never be told that the peer is gone,
-				// since the next Read only happens after it has returned.
-				go c.sr.pipeCopyF()
-				c.sr.r = pr
-				c.sr.pr = nil
-				c.sr.pipeCopyF = nil
-			}
 			c.sr.Unlock()
 		}
 	}
+	c.sr.Lock()
+	if c.sr.inHandler && c.sr.pr != nil && c.sr.pipeCopyF != nil {
+		// A handler is running, on the goroutine that reads: no Read is in
+		// progress and the copy routine can take over at once - the one
+		// created above, or one that an earlier request, made while a Read
+		// was in progress, left for the next Read to start. It has to: a
+		// handler that waits for the channel it asked for would otherwise
+		// never be told that the peer is gone, since the next Read only
+		// happens after it has returned.
+		go c.sr.pipeCopyF()
+		c.sr.r = c.sr.pr
+		c.sr.pr = nil
+		c.sr.pipeCopyF = nil
+	}
+	c.sr.Unlock()
 	return c.closeNotifyc
 }
 
